@@ -17,6 +17,7 @@ import (
 	"sort"
 	"strings"
 	"sync/atomic"
+	"time"
 
 	anystore "github.com/anyproto/any-store"
 	"google.golang.org/protobuf/proto"
@@ -92,13 +93,25 @@ type changeInfo struct {
 // site holds what survives between schedules: one any-store DB per replica slot.
 type site struct {
 	dir  string
-	dbs  []anystore.DB
+	dbs  []*wrapDB // the real any-store DB behind a recording / fault-injecting wrapper
 	hss  []headstorage.HeadStorage
 	keys *accountdata.AccountKeys
 	acl  list.AclList
 	seq  int // tree counter (distinct tree per schedule)
 
 	addSeq [8]atomic.Uint64
+}
+
+// detAcl: the derived in-memory ACL draws its read key and master key from crypto/rand, so its head
+// id differs from run to run; every tree change embeds the ACL head id, hence every change id (and
+// with it every id-ordered decision of the tree) would too. The trees here use the non-validating
+// builder, which never looks the head up, so a fixed head id keeps runs seed-deterministic.
+type detAcl struct{ list.AclList }
+
+func (d detAcl) Head() *list.AclRecord {
+	h := *d.AclList.Head()
+	h.Id = "verif-acl-head"
+	return &h
 }
 
 type detReader struct{ r *corr.Run }
@@ -126,9 +139,10 @@ func newSite(r *corr.Run, n int) (*site, error) {
 			s.close()
 			return nil, err
 		}
-		s.dbs = append(s.dbs, db)
+		wdb := newWrapDB(db)
+		s.dbs = append(s.dbs, wdb)
 		// the index spacestorage.Create puts on the changes collection in production
-		coll, err := db.Collection(ctx, objecttree.CollName)
+		coll, err := wdb.Collection(ctx, objecttree.CollName)
 		if err == nil {
 			err = coll.EnsureIndex(ctx, anystore.IndexInfo{Fields: []string{objecttree.TreeKey, objecttree.OrderKey}, Unique: true})
 		}
@@ -136,7 +150,7 @@ func newSite(r *corr.Run, n int) (*site, error) {
 			s.close()
 			return nil, err
 		}
-		hs, err := headstorage.New(ctx, db)
+		hs, err := headstorage.New(ctx, wdb)
 		if err != nil {
 			s.close()
 			return nil, err
@@ -154,11 +168,12 @@ func newSite(r *corr.Run, n int) (*site, error) {
 		return nil, err
 	}
 	s.keys = accountdata.New(peerKey, sign)
-	s.acl, err = list.NewInMemoryDerivedAcl(spaceId, s.keys)
+	acl, err := list.NewInMemoryDerivedAcl(spaceId, s.keys)
 	if err != nil {
 		s.close()
 		return nil, err
 	}
+	s.acl = detAcl{acl}
 	return s, nil
 }
 
@@ -189,16 +204,20 @@ type world struct {
 	nextM  int
 	seqNo  int // payload counter (unique data per local change)
 
-	emitted   []*message // messages produced by the current step
-	actor     int        // replica whose code runs in the current step
-	ops       []string   // op lines sent to the model so far (replay trace)
-	batch     int        // response batch size in bytes (0 = production default)
-	nomodel   bool
-	abort     bool     // schedule not meaningful (pruned by the enumerator)
-	phase     [][2]int // if set: the anti-entropy phase is exactly these exchanges, in this order
-	failed    bool     // a property violation was recorded (or the schedule cannot go on)
-	disagreed bool     // the model was left behind in this schedule
-	errs      map[string]int
+	emitted    []*message // messages produced by the current step
+	actor      int        // replica whose code runs in the current step
+	ops        []string   // op lines sent to the model so far (replay trace)
+	batch      int        // response batch size in bytes (0 = production default)
+	nomodel    bool
+	abort      bool                     // schedule not meaningful (pruned by the enumerator)
+	idWanted   func(realId string) bool // next local add: pick a payload whose change id satisfies this
+	faultFired bool                     // the fault family: the injected fault was reached
+	deep       bool                     // rebuild the acting replica from storage after every step (guard-directed scenarios)
+	stepNo     int
+	phase      [][2]int // if set: the anti-entropy phase is exactly these exchanges, in this order
+	failed     bool     // a property violation was recorded (or the schedule cannot go on)
+	disagreed  bool     // the model was left behind in this schedule
+	errs       map[string]int
 }
 
 func peerName(i int) string { return fmt.Sprintf("peer%d", i) }
@@ -442,6 +461,64 @@ func (w *world) reopenHeads(i int) ([]int, error) {
 	return w.intern(t.Heads()), nil
 }
 
+// maximal returns the maximal elements (no stored child) of a stored set, by the creators' parent lists.
+func (w *world) maximal(stored []int) []int {
+	isParent := map[int]bool{}
+	for _, id := range stored {
+		for _, p := range w.chs[id].parents {
+			isParent[p] = true
+		}
+	}
+	var out []int
+	for _, id := range stored {
+		if !isParent[id] {
+			out = append(out, id)
+		}
+	}
+	return out
+}
+
+// attachedDefect: a change the in-memory tree has attached but the storage does not hold.
+func (w *world) attachedDefect(i int, o obs) string {
+	rep := w.reps[i]
+	rep.tree.Lock()
+	defer rep.tree.Unlock()
+	for _, c := range w.chs {
+		if rep.tree.HasChanges(c.real) && !has(o.stored, c.id) {
+			return fmt.Sprintf("replica %d has change %d attached in memory but not in its storage", i, c.id)
+		}
+	}
+	return ""
+}
+
+// faulty runs f while the k-th write-side storage call (transaction begin, insert, upsert, commit, …;
+// rollbacks excepted) of replica i's database fails with an injected error.
+func (w *world) faulty(i, k int, f func()) (fired bool, kind string, calls int) {
+	rec := w.site.dbs[i].rec
+	rec.start(func(idx int, ev Event) error {
+		if idx == k && ev.Kind != evRollback && ev.Kind != evSRollback {
+			fired, kind = true, evNames[ev.Kind]
+			return errInjected
+		}
+		return nil
+	})
+	done := make(chan struct{})
+	go func() {
+		defer close(done)
+		f()
+	}()
+	select {
+	case <-done:
+	case <-time.After(60 * time.Second):
+		// a leaked write transaction blocks the single write connection for ever
+		w.violate("sync.fault.hang", fmt.Sprintf("replica %d hangs after an injected storage fault at write call %d", i, k))
+		w.r.Finish()
+		os.Exit(1)
+	}
+	calls = len(rec.stop())
+	return
+}
+
 func has(sorted []int, v int) bool {
 	i := sort.SearchInts(sorted, v)
 	return i < len(sorted) && sorted[i] == v
@@ -533,19 +610,36 @@ func (w *world) violate(stream, desc string) {
 func (w *world) localAdd(i int, snapshot bool) (id int, err error) {
 	rep := w.reps[i]
 	w.seqNo++
-	data := []byte(fmt.Sprintf("payload-%d-%d", i, w.seqNo))
+	content := func(salt int) objecttree.SignableChangeContent {
+		return objecttree.SignableChangeContent{
+			Data:       []byte(fmt.Sprintf("payload-%d-%d-%d", i, w.seqNo, salt)),
+			Key:        w.site.keys.SignKey,
+			IsSnapshot: snapshot,
+			Timestamp:  1700000000 + int64(w.seqNo),
+			DataType:   "verif",
+		}
+	}
+	salt := 0
+	if w.idWanted != nil {
+		// guard-directed id order (heads are sorted by id): try payloads until the change id the
+		// real builder would produce (ObjectTree.PrepareChange) is the kind the scenario wants
+		pred := w.idWanted
+		w.idWanted = nil
+		for ; salt < 400; salt++ {
+			rep.tree.Lock()
+			raw, e := rep.tree.PrepareChange(content(salt))
+			rep.tree.Unlock()
+			if e != nil || pred(raw.Id) {
+				break
+			}
+		}
+	}
 	var res objecttree.AddResult
 	err = w.recovering("AddContent", func() error {
 		rep.tree.Lock()
 		defer rep.tree.Unlock()
 		var e error
-		res, e = rep.tree.AddContent(context.Background(), objecttree.SignableChangeContent{
-			Data:       data,
-			Key:        w.site.keys.SignKey,
-			IsSnapshot: snapshot,
-			Timestamp:  1700000000 + int64(w.seqNo),
-			DataType:   "verif",
-		})
+		res, e = rep.tree.AddContent(context.Background(), content(salt))
 		return e
 	})
 	if err != nil {
